@@ -6,7 +6,7 @@ fast path = binomial thinning + truncated exponential), the event handlers' cont
 M (cited): Gillespie's direct method; thinning; Sellke/percolation representation + Dijkstra (C11)."""
 from ..common import Report, Ob
 from ..pyvc import verify as V
-from ..contracts import gillespie, fast_sir
+from ..contracts import gillespie, fast_sir, fast_sis
 from . import util
 
 
@@ -22,6 +22,14 @@ def reg_fast():
     for c in fast_sir.contracts():
         r.add(c)
     r.lib_install.append(fast_sir.install)
+    return r
+
+
+def reg_fast_sis():
+    r = V.Registry()
+    for c in fast_sis.contracts(verify_callees=True):
+        r.add(c)
+    r.lib_install.append(fast_sis.install)
     return r
 
 
@@ -42,11 +50,13 @@ ASSUME = [
 ]
 
 
-def run(tier, seed, prop='C01', units=('Gillespie_SIR',), fast=True):
+def run(tier, seed, prop='C01', units=('Gillespie_SIR',), fast=True, sis=False):
     rep = Report(prop, tier, seed)
     jobs = quick_filter(util.jobs_for(reg, quals=set(units), tier=tier), tier)
     if fast:
         jobs += util.jobs_for(reg_fast, tier=tier)
+    if sis:
+        jobs += util.jobs_for(reg_fast_sis, tier=tier)
     rep.add_unit_results(util.run_jobs(jobs))
     rep.assumptions += ASSUME
     if fast:
